@@ -70,11 +70,16 @@ def validate(data, program):
             # the section's text, decoded by the reference parser's codec
             ok = False
 
+            mkind = r['options'].get('line_endings', 'unix')
+
             for t in texts:
+                if mkind == 'dos':
+                    t = t.replace('\n', '\r\n')
+
                 for codec in _codecs_of(program, recs, r):
                     try:
-                        if raw in (t.encode(codec) + spec.nl_bytes('unix',
-                                                                   codec),):
+                        if raw == t.encode(codec) + spec.nl_bytes(mkind,
+                                                                  codec):
                             ok = True
                     except UnicodeError:
                         pass
